@@ -34,6 +34,8 @@ pub struct PropDef<C> {
     /// optional domain-specific minimiser run after proptest's shrinking: gets the case, its failure and an oracle
     /// `still_fails(candidate) -> Option<Failure>` (None = passes or only hits a known finding)
     pub minimize: Option<Arc<dyn Fn(&C, &Failure, &dyn Fn(&C) -> Option<Failure>) -> C + Send + Sync>>,
+    /// proptest shrink budget (cases that are expensive to evaluate keep it small)
+    pub shrink_iters: u32,
 }
 
 #[derive(Default)]
@@ -224,7 +226,7 @@ where
     C: Clone + Debug + Serialize + DeserializeOwned + Send + 'static,
 {
     let strategy = (def.strategy)();
-    let cfg = Config { cases: cases as u32, failure_persistence: None, max_shrink_iters: 1500, max_global_rejects: 10_000, ..Config::default() };
+    let cfg = Config { cases: cases as u32, failure_persistence: None, max_shrink_iters: def.shrink_iters, max_global_rejects: 10_000, ..Config::default() };
     let mut runner = TestRunner::new_with_rng(cfg, rng_for(seed, w as u64, stream));
     let rep = RefCell::new(Report::default());
     let failed = std::cell::Cell::new(false);
